@@ -32,6 +32,7 @@ type C18Case struct {
 	Shapes   [][]int   `json:"shapes"`
 	Layouts  []Layout  `json:"layouts"`
 	Float    []bool    `json:"float"`
+	DTs      []string  `json:"dts,omitempty"` // per shared tensor: another element type ("" = int32/float64 by Float)
 	Progs    [][]C18Op `json:"programs"`
 	MaxProcs int       `json:"gomaxprocs"`
 	Repeat   int       `json:"repeat"`
@@ -67,7 +68,7 @@ func (c *C18Case) NTKey() string {
 var c18SharedOps = []string{"At", "Slice", "Iterate", "MultIterate", "PrivateSprintBig", "MinBetweenScalar", "MaxBetweenScalar", "Add", "AddShared", "AddScalar", "ScalarSub", "LtScalar", "Lt", "Sum", "Max", "Argmax", "Inner", "MatVecMul", "MatMul", "Dot", "TensorMul", "Clone", "Materialize", "Sprint", "T-safe", "Repeat", "Stack", "Apply", "PrivateUnsafe", "PrivateReturn", "PrivateScalarOther", "PrivateTensorMul"}
 
 // runOp performs one operation and returns a digest of what it delivered.
-func c18RunOp(o C18Op, shared []*tensor.Dense, sharedM []Arr, priv **tensor.Dense) string {
+func c18RunOp(o C18Op, shared []*tensor.Dense, sharedM []Arr, priv **tensor.Dense) (out string) {
 	s := shared[o.Shared%len(shared)]
 	m := sharedM[o.Shared%len(shared)]
 	isF := s.Dtype() == tensor.Float64
@@ -78,14 +79,16 @@ func c18RunOp(o C18Op, shared []*tensor.Dense, sharedM []Arr, priv **tensor.Dens
 		return fmt.Sprint(t.Shape(), readAll(t))
 	}
 	fresh := func(shape []int, base int64) *tensor.Dense {
-		d := dtInt32
-		if isF {
-			d = dtF64
-		}
+		d := dtByName(s.Dtype().String())
 		a := seqArr(d, shape, base)
 		return tensor.New(tensor.WithShape(shape...), tensor.WithBacking(mkBacking(d, a.E)))
 	}
-	defer func() { recover() }()
+	defer func() {
+		if r := recover(); r != nil {
+			out = "panic" // (an operation that panics does so alone as well: the oracle records the same)
+			rec.Class("op-panicked:" + o.Op)
+		}
+	}()
 	switch o.Op {
 	case "At":
 		return fmt.Sprint(readAll(s))
@@ -110,7 +113,16 @@ func c18RunOp(o C18Op, shared []*tensor.Dense, sharedM []Arr, priv **tensor.Dens
 		if len(m.Shape) == 0 {
 			return "-"
 		}
-		it := tensor.MultIteratorFromDense(s, fresh(m.Shape, 0))
+		other := fresh(m.Shape, 0)
+		if len(m.Shape) == 1 && o.Arg%2 == 0 {
+			other = fresh([]int{m.Shape[0], 1}, 0) // the same vector in another form
+		}
+		var it *tensor.MultIterator
+		if len(other.Shape()) != len(m.Shape) {
+			it = tensor.MultIteratorFromDense(other, s) // (the operand of the higher rank has to come first)
+		} else {
+			it = tensor.MultIteratorFromDense(s, other)
+		}
 		var offs []int
 		for _, err := it.Next(); err == nil; _, err = it.Next() {
 			offs = append(offs, it.LastIndex(0), it.LastIndex(1))
@@ -290,6 +302,9 @@ func (c *C18Case) Run() string {
 		if c.Float[i] {
 			d = dtF64
 		}
+		if i < len(c.DTs) && c.DTs[i] != "" {
+			d = dtByName(c.DTs[i])
+		}
 		arr := seqArr(d, shp, int64(i)*3+1)
 		b, err := Build(arr, c.Layouts[i], nil)
 		if err != nil {
@@ -426,6 +441,8 @@ func TestC18(t *testing.T) {
 				c.Shapes = append(c.Shapes, shape)
 				c.Layouts = append(c.Layouts, genLayoutKind(rt, rapid.SampledFrom([]string{"contig", "lazyT", "sliced", "contig"}).Draw(rt, "lk"), len(shape), fmt.Sprintf("l%d", i)))
 				c.Float = append(c.Float, rapid.IntRange(0, 2).Draw(rt, "float") > 0)
+				// now and then an element type of another size (16-byte and string elements take paths of their own)
+				c.DTs = append(c.DTs, rapid.SampledFrom([]string{"", "", "", "", "complex128", "string", "int8"}).Draw(rt, "dt"))
 			}
 			for g := 0; g < ng; g++ {
 				n := rapid.IntRange(5, 40).Draw(rt, "plen")
